@@ -98,7 +98,7 @@ def main():
         "harness: error classes of refusals are read from the handler's error log line; responses to honest clients are not observed individually (label OSAny) unless the Broadcast succeeded; all faulty members are played by one script (they share what they see)",
     ]
     R.proofs()
-    n = 2000 if R.thorough else 200
+    n = 1500 if R.thorough else 200
     rc, out, od = vp.go_harness("bcast", env_extra={"VERIF_N": n, "VERIF_RACE_IDS": 300 if R.thorough else 150}, timeout=1500)
     if rc != 0:
         R.broke("correspondence:harness bcast failed to run", out[-3000:])
